@@ -634,7 +634,8 @@ func (exec *Executor) executeDecimalMethod(
 		if ch == '.' {
 			break
 		}
-		if '1' <= ch && ch <= '9' {
+		// Every digit from the first non-zero one counts.
+		if '1' <= ch && ch <= '9' || ch == '0' && count > 0 {
 			count++
 		}
 	}
